@@ -88,3 +88,59 @@ func runClasses(r *vlib.Rec, lo, hi int64) {
 		}
 	}
 }
+
+// ---- nodes built through the API with values the decoder would never produce ----
+
+var apiValues = []string{" x", "x ", "  x  ", " ", "\tx", "x\t", "a  b", ""}
+var apiTags = []string{"NOTE", "TEXT", "NAME", "DATE", "PLAC", "SEX", "_UID", "EVEN", "RESI", "BIRT", "OCCU", "_X"}
+
+// checkAPIValue: a parent with one child built by gedcom.NewNode(tag, value): every copy path must
+// keep the value byte for byte and give a tree that is deep-equal to its source.
+func checkAPIValue(tag, value string) (sig, what string) {
+	mk := func() gedcom.Node {
+		root := gedcom.NewNode(gedcom.TagFromString("NOTE"), "root", "")
+		root.AddNode(gedcom.NewNode(gedcom.TagFromString(tag), value, ""))
+		return root
+	}
+	T := mk()
+	t0 := gedcom.GEDCOMString(T, 0)
+	copies := map[string]func() gedcom.Node{
+		"DeepCopy": func() gedcom.Node { return gedcom.DeepCopy(T, gedcom.NewDocument()) },
+		"Filter-identity": func() gedcom.Node {
+			return gedcom.Filter(T, gedcom.NewDocument(), func(n gedcom.Node) (gedcom.Node, bool) { return n, true })
+		},
+	}
+	for _, name := range []string{"DeepCopy", "Filter-identity"} {
+		var C gedcom.Node
+		if p, msg, frame := vlib.Try(func() { C = copies[name]() }); p {
+			return "copy-panics:" + name + ":" + frame + ":" + vlib.MsgClass(msg), fmt.Sprintf("%s of a node with value %q panicked: %s", name, value, msg)
+		}
+		if gedcom.IsNil(C) || len(C.Nodes()) != 1 || C.Nodes()[0].Value() != value {
+			got := "<nil>"
+			if !gedcom.IsNil(C) && len(C.Nodes()) == 1 {
+				got = C.Nodes()[0].Value()
+			}
+			return "copy-changes-value:" + name, fmt.Sprintf("%s of %s %q carries the value %q", name, tag, value, got)
+		}
+		if gedcom.GEDCOMString(C, 0) != t0 {
+			return "copy-serialises-differently:" + name, fmt.Sprintf("%q vs %q", gedcom.GEDCOMString(C, 0), t0)
+		}
+	}
+	if gedcom.GEDCOMString(T, 0) != t0 {
+		return "copy-modifies-source", t0
+	}
+	return "", ""
+}
+
+func runAPIValues(r *vlib.Rec) {
+	for _, tag := range apiTags {
+		for _, v := range apiValues {
+			r.Eval()
+			r.Count("apivalues")
+			sig, what := checkAPIValue(tag, v)
+			if sig != "" {
+				r.Fail(sig, what, kase{Sub: "apivalues", Arg: tag + "\x00" + v})
+			}
+		}
+	}
+}
